@@ -159,7 +159,7 @@ fn class_matches(class: u16, qclass: u16) -> bool {
 /// Ask one query in one store state; returns (signature tag, detail) for every deviation.
 pub fn judge(w: &World, store: &ResourceRecordManager<'static>, model: &RefStore, qs: &[Q], id: u16) -> Vec<(String, String)> {
     let qn: Vec<QN> = qs.iter().map(|q| QN { name: RefName::txt(OWNERS[q.owner]), qtype: q.qtype, qclass: q.qclass, unicast: q.unicast }).collect();
-    judge_q(w, store, model, &qn, id)
+    judge_q(w, store, model, &qn, id, &[])
 }
 
 /// A question with an arbitrary name (for worlds other than the BFS menu).
@@ -171,9 +171,12 @@ pub struct QN {
     pub unicast: bool,
 }
 
-pub fn judge_q(w: &World, store: &ResourceRecordManager<'static>, model: &RefStore, qs: &[QN], id: u16) -> Vec<(String, String)> {
+/// `known`: records the querier lists in the answer section of its query (known answers); the
+/// property quantifies over every query and makes no exception for them.
+pub fn judge_q(w: &World, store: &ResourceRecordManager<'static>, model: &RefStore, qs: &[QN], id: u16, known: &[RefRR]) -> Vec<(String, String)> {
     let mut bad = Vec::new();
     let mut query = RefPacket { id, ..Default::default() };
+    query.answers.extend(known.iter().cloned());
     for q in qs {
         query.questions.push(RefQ { name: q.name.clone(), qtype: q.qtype, qclass: q.qclass, unicast: q.unicast });
     }
@@ -374,19 +377,35 @@ pub fn check_state(w: &World, hist: &[Op], singles: &[Q], pairs: &[Q], t: &mut T
     }
     let r = guarded(|| {
         let store = build_store(w, hist);
-        let mut found: Vec<(String, String, Vec<Q>)> = Vec::new();
+        let mut found: Vec<(String, String, Vec<Q>, Vec<RefRR>)> = Vec::new();
         let mut n = 0u64;
         for q in singles {
             n += 1;
             for (tag, d) in judge(w, &store, &model, std::slice::from_ref(q), 0x4d51) {
-                found.push((tag, d, vec![q.clone()]));
+                found.push((tag, d, vec![q.clone()], vec![]));
+            }
+        }
+        // queries that list known answers: for every record of the state, a question for its own
+        // name / type / class carrying (a) that record with TTL 1, (b) that record unchanged,
+        // (c) an unrelated record
+        for (i, _) in model.recs.iter() {
+            let r = &w.menu[*i];
+            let qn = QN { name: r.name.clone(), qtype: r.rdata.code(), qclass: r.class, unicast: false };
+            let mut stale = r.clone();
+            stale.ttl = 1;
+            let other = w.menu[(*i + 1) % w.menu.len()].clone();
+            for known in [vec![stale.clone()], vec![r.clone()], vec![other.clone()], vec![other, stale]] {
+                n += 1;
+                for (tag, d) in judge_q(w, &store, &model, std::slice::from_ref(&qn), 0x4d53, &known) {
+                    found.push((format!("{}|known-answers", tag), format!("query lists {} known answer(s): {}", known.len(), d), vec![Q { owner: OWNERS.iter().position(|o| RefName::txt(o) == r.name).unwrap_or(0), qtype: r.rdata.code(), qclass: r.class, unicast: false }], known.clone()));
+                }
             }
         }
         for a in pairs {
             for b in pairs {
                 n += 1;
                 for (tag, d) in judge(w, &store, &model, &[a.clone(), b.clone()], 7) {
-                    found.push((tag, d, vec![a.clone(), b.clone()]));
+                    found.push((tag, d, vec![a.clone(), b.clone()], vec![]));
                 }
             }
         }
@@ -399,8 +418,8 @@ pub fn check_state(w: &World, hist: &[Op], singles: &[Q], pairs: &[Q], t: &mut T
             let mut seen = BTreeSet::new();
             found
                 .into_iter()
-                .filter(|(tag, _, _)| seen.insert(tag.clone()))
-                .map(|(tag, d, qs)| finding(format!("C13|{}", tag), format!("history {:?}; query {:?}: {}", hist, qs, d), json!({"kind": "query", "history": hist, "questions": qs})))
+                .filter(|(tag, _, _, _)| seen.insert(tag.clone()))
+                .map(|(tag, d, qs, known)| finding(format!("C13|{}", tag), format!("history {:?}; query {:?}: {}", hist, qs, d), json!({"kind": "query", "history": hist, "questions": qs, "known": known})))
                 .collect()
         }
     }
@@ -545,10 +564,41 @@ pub fn run(ctx: &Ctx) {
             cases.push(("scale", n, all.clone(), vec![]));
             cases.push(("scale", n, all.iter().copied().filter(|i| i % 5 != 0).collect(), all.iter().copied().filter(|i| i % 5 == 0).collect()));
         }
+        {
+            let n_cyc = extra_world("cyclic", 0).0.menu.len();
+            let all: Vec<usize> = (0..n_cyc).collect();
+            cases.push(("cyclic", 0, all.clone(), vec![]));
+            cases.push(("cyclic", 0, vec![0, 1], vec![]));
+            cases.push(("cyclic", 0, vec![2], vec![]));
+            cases.push(("cyclic", 0, vec![3, 4, 5], vec![]));
+            cases.push(("cyclic", 0, vec![6, 7], vec![]));
+            cases.push(("cyclic", 0, vec![8, 9, 10, 11], vec![]));
+            cases.push(("cyclic", 0, all.iter().copied().filter(|i| i % 2 == 0).collect(), all.iter().copied().filter(|i| i % 2 == 1).collect()));
+        }
         let total = std::sync::atomic::AtomicU64::new(0);
+        let root = ctx.verif_root.clone();
         par_shards(ctx, &cases, |(kind, n, auth, cached), t: &mut Tally| {
             t.evals += 1;
             t.nontrivial += 1;
+            if *kind == "cyclic" {
+                // unbounded recursion ends in a stack overflow, which aborts the process: run these in a child
+                let case = json!({"kind": "extra", "world": kind, "n": n, "auth": auth, "cached": cached});
+                let tag = format!("cyclic-{}", auth.iter().map(|i| i.to_string()).collect::<Vec<_>>().join("_"));
+                match crate::engine::run_isolated(&root, "C13", &tag, &case) {
+                    Ok(sigs) => {
+                        t.outcome(if sigs.is_empty() { "replies-exact" } else { "replies-wrong" });
+                        for (s, d) in sigs {
+                            ctx.violation(finding(s, d, case.clone()));
+                        }
+                    }
+                    Err(e) => {
+                        t.outcome("process-abort");
+                        ctx.violation(finding("C13|process-abort", format!("answering queries over a store whose records refer to each other in a cycle killed the process: {}", e), case.clone()));
+                    }
+                }
+                total.fetch_add(1, std::sync::atomic::Ordering::Relaxed);
+                return;
+            }
             let (f, nq) = check_extra(kind, *n, auth, cached);
             t.transitions += nq;
             total.fetch_add(nq, std::sync::atomic::Ordering::Relaxed);
@@ -557,7 +607,7 @@ pub fn run(ctx: &Ctx) {
                 ctx.violations(f);
             }
         });
-        ctx.space(&format!("odd and large stores: {} stores (14 odd-shaped records singly, in ordered pairs, all together and all-but-one; owners with labels of 256/300/260 bytes, binary labels, a dot inside a label, the root, SRV at 1- and 2-label owners, the DNS-SD meta-query name; 10..300 hosts x (A, SRV, PTR) fully authoritative and with every fifth record cached) x every question over the world's names x 5 types x 2 classes", cases.len()), total.load(std::sync::atomic::Ordering::Relaxed), "complete");
+        ctx.space(&format!("odd and large stores: {} stores (14 odd-shaped records singly, in ordered pairs, all together and all-but-one; owners with labels of 256/300/260 bytes, binary labels, a dot inside a label, the root, SRV at 1- and 2-label owners, the DNS-SD meta-query name; 10..300 hosts x (A, SRV, PTR) fully authoritative and with every fifth record cached; PTR / CNAME / SRV records that refer to each other in cycles of length 1, 2 and 3, run in a child process) x every question over the world's names x 5 types x 2 classes", cases.len()), total.load(std::sync::atomic::Ordering::Relaxed), "complete");
         ctx.sample(json!({"kind": "extra", "world": "odd", "n": 0, "auth": [0, 1], "cached": []}));
     }
 }
@@ -596,6 +646,27 @@ pub fn extra_world(kind: &str, n: usize) -> (World, Vec<QN>) {
             qnames.push(r.name.clone());
         }
         for s in ["_dns-sd._udp.local", "_udp.local", "_tcp.local", "_services._dns-sd._udp.printer.local", "_SERVICES._DNS-SD._UDP.local", "hos.local", "hostx.local"] {
+            qnames.push(nm(s));
+        }
+    } else if kind == "cyclic" {
+        // records that refer to each other in cycles: anything that follows references must stop
+        menu.push(ptr("_printer._tcp.local", "_ipp._tcp.local"));
+        menu.push(ptr("_ipp._tcp.local", "_printer._tcp.local"));
+        menu.push(ptr("self._tcp.local", "self._tcp.local"));
+        menu.push(ptr("a3._udp.local", "b3._udp.local"));
+        menu.push(ptr("b3._udp.local", "c3._udp.local"));
+        menu.push(ptr("c3._udp.local", "a3._udp.local"));
+        menu.push(RefRR { name: nm("x.local"), class: 1, cache_flush: false, ttl: 120, rdata: typed(5, vec![Val::Name(nm("y.local"))]) });
+        menu.push(RefRR { name: nm("y.local"), class: 1, cache_flush: false, ttl: 120, rdata: typed(5, vec![Val::Name(nm("x.local"))]) });
+        menu.push(srv(nm("s1._tcp.local"), 1, "s2._tcp.local"));
+        menu.push(srv(nm("s2._tcp.local"), 2, "s1._tcp.local"));
+        menu.push(arec(nm("s1._tcp.local"), 1));
+        menu.push(arec(nm("s2._tcp.local"), 2));
+        menu.push(arec(nm("_ipp._tcp.local"), 3));
+        for r in &menu {
+            qnames.push(r.name.clone());
+        }
+        for s in ["_tcp.local", "_udp.local", "local"] {
             qnames.push(nm(s));
         }
     } else {
@@ -644,7 +715,7 @@ pub fn check_extra(kind: &str, n: usize, auth: &[usize], cached: &[usize]) -> (V
         }
         let mut bad: Vec<(String, String)> = Vec::new();
         for q in &qs {
-            for (tag, d) in judge_q(&w, &store, &model, std::slice::from_ref(q), 0x4d52) {
+            for (tag, d) in judge_q(&w, &store, &model, std::slice::from_ref(q), 0x4d52, &[]) {
                 bad.push((tag, format!("question {:?} type {} class {}: {}", q.name, q.qtype, q.qclass, d)));
             }
         }
@@ -680,9 +751,17 @@ pub fn replay(case: &Value) -> Vec<Finding> {
             for op in &hist {
                 model.apply(*op, w.menu);
             }
+            let known: Vec<RefRR> = serde_json::from_value(case["known"].clone()).unwrap_or_default();
             let r = guarded(|| {
                 let store = build_store(&w, &hist);
-                judge(&w, &store, &model, &qs, 0x4d51)
+                let qn: Vec<QN> = qs.iter().map(|q| QN { name: RefName::txt(OWNERS[q.owner]), qtype: q.qtype, qclass: q.qclass, unicast: q.unicast }).collect();
+                let mut bad = judge_q(&w, &store, &model, &qn, 0x4d51, &known);
+                if !known.is_empty() {
+                    for b in bad.iter_mut() {
+                        b.0 = format!("{}|known-answers", b.0);
+                    }
+                }
+                bad
             });
             match r {
                 Err(pn) => vec![finding(format!("C13|{}", pn.sig()), format!("{:?}", pn), case.clone())],
